@@ -7,12 +7,10 @@
 package main
 
 import (
-	"bytes"
 	"flag"
 	"fmt"
 	"go/ast"
 	"go/parser"
-	"go/printer"
 	"go/token"
 	"os"
 	"path/filepath"
@@ -30,6 +28,9 @@ func parse(fset *token.FileSet, path string) *ast.File {
 	if err != nil {
 		die("%v", err)
 	}
+	// behaviour-preserving normal form (astnorm_gen.go): log calls dropped, x++ / x += 1, := / var,
+	// operand order of pure conjunctions, if/else orientation; locals are printed under canonical names
+	NormalizeFile(fset, f, AllNorm)
 	return f
 }
 
@@ -57,13 +58,33 @@ func funcDecl(f *ast.File, recv, name string) *ast.FuncDecl {
 	return nil
 }
 
-// src: the node printed by go/printer with every run of white space collapsed to one blank
+// src: the node printed by go/printer with every run of white space collapsed to one blank and every
+// function-local identifier under its canonical name (v<k>, k = rank of its declaration in the function)
 func src(fset *token.FileSet, n ast.Node) string {
-	var b bytes.Buffer
-	if err := printer.Fprint(&b, fset, n); err != nil {
-		die("%v", err)
-	}
-	return strings.Join(strings.Fields(b.String()), " ")
+	return CanonPrint(fset, n)
+}
+
+// mergedErrVar: the variable of the write closure that receives the merged error channel of the
+// pipeline (`x := utils.MergeErrorsWithContext(…)`), identified by what is assigned to it, not by name
+func mergedErrVar(lit *ast.FuncLit) *ast.Object {
+	var obj *ast.Object
+	ast.Inspect(lit.Body, func(n ast.Node) bool {
+		as, ok := n.(*ast.AssignStmt)
+		if !ok || len(as.Lhs) != 1 || len(as.Rhs) != 1 {
+			return true
+		}
+		call, ok := as.Rhs[0].(*ast.CallExpr)
+		if !ok {
+			return true
+		}
+		if sel, ok := call.Fun.(*ast.SelectorExpr); ok && sel.Sel.Name == "MergeErrorsWithContext" {
+			if id, ok := as.Lhs[0].(*ast.Ident); ok && id.Obj != nil && obj == nil {
+				obj = id.Obj
+			}
+		}
+		return true
+	})
+	return obj
 }
 
 func bodySrc(fset *token.FileSet, fd *ast.FuncDecl) string {
@@ -122,6 +143,10 @@ func writeClosure(fd *ast.FuncDecl) *ast.FuncLit {
 // contain: "errcheck" (receive from mergedErrC followed by a return), "count" (changePointCount),
 // "flush" (nodeCounter.Flush), "newcounter" (NewIdCounter)
 func phases(fset *token.FileSet, lit *ast.FuncLit) (seq []string, countArg string) {
+	merged := mergedErrVar(lit)
+	if merged == nil {
+		die("write closure: no variable is assigned from utils.MergeErrorsWithContext(…)")
+	}
 	for _, st := range lit.Body.List {
 		var marks []string
 		ast.Inspect(st, func(n ast.Node) bool {
@@ -129,7 +154,7 @@ func phases(fset *token.FileSet, lit *ast.FuncLit) (seq []string, countArg strin
 			case *ast.FuncLit:
 				return false // the transform callback is not a phase of the closure
 			case *ast.UnaryExpr:
-				if id, ok := x.X.(*ast.Ident); ok && x.Op == token.ARROW && id.Name == "mergedErrC" {
+				if id, ok := x.X.(*ast.Ident); ok && x.Op == token.ARROW && id.Obj == merged {
 					if ifs, ok := st.(*ast.IfStmt); ok && len(ifs.Body.List) > 0 {
 						if _, ok := ifs.Body.List[len(ifs.Body.List)-1].(*ast.ReturnStmt); ok {
 							marks = append(marks, "errcheck")
@@ -211,6 +236,80 @@ func txShape(fset *token.FileSet, fd *ast.FuncDecl) (writes, reads int, writeInL
 	return
 }
 
+// startIdLiteral: see main
+func startIdLiteral(ctrF *ast.File) string {
+	body := funcDecl(ctrF, "", "NewIdCounter").Body
+	var fieldVar *ast.Object
+	ast.Inspect(body, func(n ast.Node) bool {
+		cl, ok := n.(*ast.CompositeLit)
+		if !ok {
+			return true
+		}
+		if t, ok := cl.Type.(*ast.Ident); !ok || t.Name != "IdCounter" {
+			return true
+		}
+		for _, e := range cl.Elts {
+			if kv, ok := e.(*ast.KeyValueExpr); ok {
+				if k, ok := kv.Key.(*ast.Ident); ok && k.Name == "nextFreeId" {
+					if v, ok := kv.Value.(*ast.Ident); ok {
+						fieldVar = v.Obj
+					}
+				}
+			}
+		}
+		return true
+	})
+	if fieldVar == nil {
+		return ""
+	}
+	var init ast.Expr
+	ast.Inspect(body, func(n ast.Node) bool {
+		switch x := n.(type) {
+		case *ast.ValueSpec: // var x T = e   (also the normal form of x := T(e))
+			for i, nm := range x.Names {
+				if nm.Obj == fieldVar && i < len(x.Values) && init == nil {
+					init = x.Values[i]
+				}
+			}
+		case *ast.AssignStmt:
+			if x.Tok == token.DEFINE {
+				for i, l := range x.Lhs {
+					if id, ok := l.(*ast.Ident); ok && id.Obj == fieldVar && i < len(x.Rhs) && init == nil {
+						init = x.Rhs[i]
+					}
+				}
+			}
+		}
+		return true
+	})
+	for { // strip conversions uint64(e)
+		call, ok := init.(*ast.CallExpr)
+		if !ok || len(call.Args) != 1 {
+			break
+		}
+		init = call.Args[0]
+	}
+	switch x := init.(type) {
+	case *ast.BasicLit:
+		if x.Kind == token.INT {
+			return x.Value
+		}
+	case *ast.Ident: // a package-level constant declared with an integer literal
+		if x.Obj != nil && x.Obj.Kind == ast.Con {
+			if vs, ok := x.Obj.Decl.(*ast.ValueSpec); ok {
+				for i, nm := range vs.Names {
+					if nm.Name == x.Name && i < len(vs.Values) {
+						if bl, ok := vs.Values[i].(*ast.BasicLit); ok && bl.Kind == token.INT {
+							return bl.Value
+						}
+					}
+				}
+			}
+		}
+	}
+	return ""
+}
+
 func leanList(xs []string) string {
 	q := make([]string, len(xs))
 	for i, x := range xs {
@@ -254,25 +353,12 @@ func main() {
 		die("const DELETEVALUE (string literal) not found in shard/shard.go")
 	}
 
-	// start value of the id counter: `nextFreeId := uint64(<n>)` in NewIdCounter
-	start := ""
-	ast.Inspect(funcDecl(ctrF, "", "NewIdCounter").Body, func(n ast.Node) bool {
-		as, ok := n.(*ast.AssignStmt)
-		if !ok || as.Tok != token.DEFINE || len(as.Lhs) != 1 || len(as.Rhs) != 1 {
-			return true
-		}
-		if id, ok := as.Lhs[0].(*ast.Ident); !ok || id.Name != "nextFreeId" {
-			return true
-		}
-		if call, ok := as.Rhs[0].(*ast.CallExpr); ok && len(call.Args) == 1 {
-			if bl, ok := call.Args[0].(*ast.BasicLit); ok && bl.Kind == token.INT {
-				start = bl.Value
-			}
-		}
-		return true
-	})
+	// start value of the id counter: the value the constructor puts into the field nextFreeId when the
+	// bucket holds none — the initial value of the variable that the composite literal `IdCounter{…
+	// nextFreeId: x …}` of NewIdCounter reads (a literal, or a package-level constant that is one).
+	start := startIdLiteral(ctrF)
 	if _, err := strconv.ParseUint(start, 10, 64); err != nil {
-		die("NewIdCounter: `nextFreeId := uint64(<literal>)` not found")
+		die("NewIdCounter: initial value of the variable stored in the field nextFreeId is not an integer literal / constant")
 	}
 
 	insSeq, insArg := phases(fset, writeClosure(funcDecl(shardF, "Shard", "InsertPoints")))
